@@ -101,6 +101,9 @@ def gen(rng, tier, idx):
             t += 1
             evs.append(["OHe", t, "", None])
         streams.append({"tid": 100 + ti, "events": evs})
+    if mode == "raw" and nthreads >= 2 and r.chance(8):
+        # a thread that was set up but never got to flush anything: its stream holds the header and nothing else
+        streams[r.below(nthreads)]["events"] = []
     # look-back size
     dmax = 0
     for s in streams:
